@@ -32,6 +32,11 @@ func probe() int {
 		fmt.Printf("PUSH %s -> %d %.100q blocks %v\n", sig, code, body, log)
 	}
 	fmt.Println("store counts", x.W.Store.Counts, "errs", x.W.StoreErr)
+	if r, err := x.W.Store.DB.Query("SELECT timestamp_ns, tree, functions, values_agg FROM profiles"); err == nil {
+		for _, row := range r.Rows {
+			fmt.Printf("PROFILE ROW %v\n", row)
+		}
+	}
 	var eps []string
 	for e := range endpoints {
 		eps = append(eps, e)
@@ -92,6 +97,8 @@ func main() {
 	switch cmd {
 	case "probe":
 		os.Exit(probe())
+	case "probe3":
+		os.Exit(probe3())
 	case "probe2":
 		os.Exit(probe2())
 	}
